@@ -20,8 +20,8 @@ def returned_field(f):
     return None
 
 
-def path_atoms(f, path, decs):
-    """atoms of the branch decisions taken on a path (see core.atom_of)"""
+def path_atoms(f, path, decs, derived=False):
+    """atoms of the branch decisions taken on a path (see core.atom_of); derived=True appends Fn.derived_atoms of each"""
     out = []
     ptr = 0
     for d in decs:
@@ -64,8 +64,9 @@ def path_atoms(f, path, decs):
         ptr += 1
         a = untry(a)
         out.append((b, a))
-        for dv in f.derived_atoms(a):
-            out.append((b, dv))
+        if derived:
+            for dv in f.derived_atoms(a):
+                out.append((b, dv))
     return out
 
 
